@@ -33,7 +33,10 @@ type C20Plan struct {
 	// own underlying agent): they are not requests received by the agent the waiters wait on
 	Sibling []int `json:"sibling,omitempty"`
 	// Local: the served agent is a local-mode server (slot operations allowed; the tool path is a file that does not exist)
-	Local    bool           `json:"local,omitempty"`
+	Local bool `json:"local,omitempty"`
+	// Late: which reads of a client from its connection, made under a read deadline that the client code armed
+	// itself and finding nothing yet, time out (the server is allowed to take as long as it needs)
+	Late     []int          `json:"late,omitempty"`
 	Strategy sched.Strategy `json:"strategy"`
 }
 
@@ -92,6 +95,11 @@ func genC20(r *sim.Rng, tier string) any {
 		}
 	}
 	p.Local = r.Bool(0.3)
+	if r.Bool(0.3) {
+		for i := 0; i < r.Range(1, 3); i++ {
+			p.Late = append(p.Late, r.Intn(6))
+		}
+	}
 	total := len(p.Sibling)
 	for _, c := range p.Conns {
 		total += len(c)
@@ -328,6 +336,7 @@ func execC20(t *testing.T, raw json.RawMessage) *sim.Outcome {
 		for ci := range p.Conns {
 			ci := ci
 			cc, sc := schedconn.Pipe(fmt.Sprintf("conn%d", ci))
+			cc.LateAt = p.Late
 			var serverTask *sched.Task
 			serverTask = s.Go(fmt.Sprintf("server%d", ci), false, func() {
 				defer func() {
